@@ -5,7 +5,9 @@ B3: TLC explores spec/Store.tla: StreamExact (the streamed (name, trace) groups 
 B2: stores with several workflow names and interleaved ingestion x batch sizes, without and with the unique-graph
     filter, are run through the real otel_to_pv; the harness consumes the nested generators the way the pipeline does
     and logs the sequence of (name, trace, spans with children); TLC evaluates StreamOnceP / StreamExactP and that
-    every streamed trace reaches the PV output whole (C12pv), and checks conformance."""
+    every streamed trace reaches the PV output whole (C12pv), and checks conformance.  A further family uses one
+    data-holder object directly in phases (ingest, stream_data, ingest more, stream_data again): every stream must be
+    exact for the store it reads (Store.tla actions StreamDirect / Reenter)."""
 import store
 import storegen
 from checks import storecheck as sc
@@ -29,7 +31,7 @@ def run(chk, tier, seed):
     k = 80 if tier == "quick" else 800
     scns = storegen.forest_scenarios(k, seed, ug=False, tag="c12a", maxtrees=6) + \
         storegen.forest_scenarios(k, seed, ug=True, tag="c12b", maxtrees=6) + storegen.small_forests_exhaustive(2) + \
-        storegen.filter_scenarios(k, seed)
+        storegen.filter_scenarios(k, seed) + storegen.reuse_scenarios(k, seed)
     st = {}
     n, ndrift = sc.run_and_validate(chk, scns, CLAUSES, stats=st)
     nontriv = sum(1 for s in scns if len({x["job"] for x in s["runs"][0]["spans"]}) >= 2)
@@ -38,7 +40,8 @@ def run(chk, tier, seed):
            "traces_validated_against_impl": n, "evaluations": n, "distinct_nontrivial": nontriv,
            "rule": "seeded forests of 1-6 traces over two workflow names (spans of a trace may carry another name before "
                    "cleaning), ingested trace by trace / interleaved / in any order / children first, batch sizes {1..7,50}, without and with the unique-graph filter, and with arbitrary name -> trace-id "
-                   "filters (true pairs, traces listed under another workflow's name, unknown ids); "
+                   "filters (true pairs, traces listed under another workflow's name, unknown ids); one data-holder object used in "
+                   "2-3 phases (ingest, stream, ingest more - new traces, late children, late parents - and stream again); "
                    "non-trivial = store with at least two traces",
            "model_runs": m["runs"], "model_drift_executions": ndrift, "conformance_action_counts": st.get("actions", {}),
            "exhaustive": False}
